@@ -170,7 +170,7 @@ def _media(ctx, i, kind, ncodecs, extras):
             codec = RTCRtpCodecParameters(
                 mimeType=kind + "/" + name,
                 clockRate=ctx.int(tag + "clock%d" % j, 1, 200000),
-                channels=(pick(ctx, tag + "ch%d" % j, [1, 2]) if kind == "audio" else None),
+                channels=(pick(ctx, tag + "ch%d" % j, [1, 2, 6]) if kind == "audio" else None),
                 payloadType=pt,
             )
             if name == "rtx" and j > 0:
